@@ -224,7 +224,7 @@ def _run(case):
                     other_exc("construction(%s)" % how, sel, exc)
             # among valid selectors one bad one must still be refused
             good = [mm.join(c) for c, _ in paths if not (mm.path_features(doc, c, form) & set(mm.QUESTIONED))][:2]
-            if good and not (doc["type"] == "indicator" and version == "2.0"):
+            if good:
                 obj, exc = _construct(_with_marking(doc, good[:1] + [sel] + good[1:]), version, "parse")
                 if exc is None:
                     fails.append(("invalid-selector-accepted:among-valid-ones", "selectors %r accepted although %r addresses nothing" % (good[:1] + [sel] + good[1:], sel)))
@@ -298,7 +298,7 @@ def run(ctx):
         ctx.notes["near_misses_checked"] = ctx.notes.get("near_misses_checked", 0) + info["counts"]["near"]
         ctx.handle(case, fails)
 
-    core.run_given(ctx, a_case(), body, ctx.n(480, 3500), label="c08-subjects")
+    core.run_given(ctx, a_case(), body, ctx.n(480, 2500), label="c08-subjects")
     if not ctx.violations and ctx.evaluations >= 300:
         need = ["path:" + f for f in mm.QUESTIONED + ("plain",)] + ["near:" + k for k in mm.NEAR_KINDS] + \
                ["form:object", "form:dict", "version:2.0", "version:2.1", "type:file", "type:observed-data", "type:indicator"]
